@@ -80,11 +80,16 @@ def tsan_reports(stderr):
             for hm in re.finditer(r"(?m)^  ((?:Previous )?(?:[Aa]tomic )?(?:[Ww]rite|[Rr]ead)) of size \d+ at \S+ by [^\n]*\n((?:    #\d+ [^\n]*\n)+)", rep):
                 w = "write" if "rite" in hm.group(1) else "read"
                 fn = None
+                base = re.sub(r"<.*$", "", cur)          # class under test without template arguments
                 for fl in hm.group(2).splitlines():
                     fm = re.match(r"\s+#\d+ (.*?) (/\S+?):(\d+)", fl)
                     if fm and (repo_mark in fm.group(2) or "/src/kernel/" in fm.group(2) or "/src/library/" in fm.group(2)):
-                        fn = _short_fn(fm.group(1))
-                        break
+                        sf = _short_fn(fm.group(1))
+                        if fn is None:
+                            fn = sf                        # innermost library function
+                        if sf.split("::")[0] == base:
+                            fn = sf                        # ... preferably the innermost member of the class under test
+                            break
                 acc.append("%s-in:%s" % (w, fn or "?"))
             # key: the function(s) performing the WRITE (stable across schedules); the reading side only when no write stack survived
             wr = sorted(set(a for a in acc if a.startswith("write-in:") and not a.endswith(":?")))
